@@ -71,6 +71,26 @@ fn limits_from(job: &Value) -> RuntimeLimits {
             }
         }
     }
+    // a configuration history: allow / forbid calls applied in order on the same set
+    if let Some(Value::Array(ops)) = job.get("perm_ops") {
+        for op in ops {
+            let (Some(k), Some(v)) = (op.get(0).and_then(|x| x.as_str()), op.get(1).and_then(|x| x.as_bool())) else { continue };
+            let perm = match k {
+                "now" => &bp::NOW,
+                "print" => &bp::PRINT,
+                "print_debug" => &bp::PRINT_DEBUG,
+                "random" => &bp::RANDOM,
+                "regex" => &bp::REGEX,
+                "sleep" => &bp::SLEEP,
+                _ => continue,
+            };
+            if v {
+                perms.allow(perm)
+            } else {
+                perms.forbid(perm)
+            }
+        }
+    }
     RuntimeLimits {
         size_limit: g("size"),
         depth_limit: g("depth"),
